@@ -305,13 +305,18 @@ def clauses(tier, seed):
       Clause('static+numeric:dry and shallow-water tendencies equivariant on the degree-3 lattice', 'numeric', fns, run_tendencies, group='jax-c', heavy=True),
       Clause('numeric:moist tendencies, implicit parts and 3-step trajectories equivariant (sampled)', 'numeric', fns, run_moist_and_steps, group='jax-d', heavy=True),
       Clause('exact:integrator steps are terms over commuting operations', 'exact', ['dinosaur.time_integration.imex_runge_kutta'], run_step_terms, group='symx'),
-  ]
+  ] + _symmetry_clauses()
+
+
+def _symmetry_clauses():
+  from contracts import symmetry_contracts
+  return symmetry_contracts.clauses()
 
 
 MANIFEST = {
-    'engine': 'jxa+symx',
-    'technique': 'contract-based: intertwining/commutation matrix identities on complete bases; equivariance of nonlinear tendencies on the unisolvent degree-3 lattice (degree proved on the jaxpr); step equivariance by structural induction over the symbolically executed step functions',
+    'engine': 'pyvc+jxa+symx',
+    'technique': 'contract-based deductive: the elementary spectral operators (d/dlon in both layouts, both latitude-derivative recurrences, Laplacian / inverse / clipping) proved (anti-)commuting with every rotation and with the equatorial mirror from the real source for all sizes (pyvc array / row mode); intertwining/commutation matrix identities on complete bases; equivariance of nonlinear tendencies on the unisolvent degree-3 lattice (degree proved on the jaxpr); step equivariance by structural induction over the symbolically executed step functions',
     'text': ('other: complete over fields/states at each configuration for linear parts and dry/shallow-water tendencies, deductive for the step functions '
              'given the layer-2 commutation, bounded over grids/rotations/level sets; moist tendencies and trajectories sampled.'),
-    'note': 'trusted: A1/A2; closed-form spectral actions validated against grid-space roll/flip (clause 1); jxa degree rules; lattice unisolvence.',
+    'note': 'trusted: A1/A2; that the transforms intertwine the grid-space and the spectral actions is a bounded numeric clause, so the all-size operator clauses carry to the model only through it; closed-form spectral actions validated against grid-space roll/flip (clause 1); jxa degree rules; lattice unisolvence.',
 }
